@@ -166,7 +166,8 @@ class Ctx:
             names = re.findall(r'^Theorem\s+([\w\']+)', open(os.path.join(COQ, pf)).read(), re.M)
             if pr.returncode == 0:
                 self.discharged += names
-                for ax in re.findall(r'^([A-Z][\w\.]+)\s*:', out, re.M): self.trusted.add('axiom ' + ax)
+                for ax in re.findall(r'^([A-Za-z_][\w\.\']*)\s*:', out, re.M):
+                    if ax not in ('Axioms', 'Warning', 'File', 'Error', 'Notation', 'Fetching'): self.trusted.add('axiom ' + ax)
                 if 'Closed under the global context' in out: self.trusted.add('some theorems closed under the global context (no axioms)')
             else:
                 self.broken.append(('coq:' + pf, first_error(out)))
